@@ -24,7 +24,7 @@ var propPlans = []propPlan{
 		NotDecided: "byte identity through mediacommon's marshaller; timestamp arithmetic (duration = next - this, base-time contiguity); cross-track interleaving; the result for any particular input.",
 		LevelText:  "Structural necessary conditions of exactly-once delivery of written units (look-ahead hand-off, part drain, payload immutability, skip-until-random-access, the 10 s constant) decided on every CFG path; not the value-level equality itself."},
 	{ID: "C02", Title: "Segment boundaries",
-		Rules:      []string{"CG0", "G1", "T6", "F2", "F1", "L8"},
+		Rules:      []string{"CG0", "G1", "G12", "G3", "T6", "F2", "F1", "L8"},
 		NotDecided: "PAT/PMT at the start of MPEG-TS segments (emitted inside mediacommon); 'never skipped when due' for inputs without random-access units; the contents of the init segment.",
 		LevelText:  "The cut condition, the pending-parameter typestate of the four video writers, forced-rotation marking and same-instant rotation of all streams are decided on every path; values are not."},
 	{ID: "C03", Title: "Playlist durations, target durations, date-times",
@@ -64,7 +64,7 @@ var propPlans = []propPlan{
 		NotDecided: "index arithmetic against a moving MEDIA-SEQUENCE; Range header values.",
 		LevelText:  "Start/next/limit constants, re-fetch and throttle between downloads, URL resolution, delta request, EOS sentinel."},
 	{ID: "C12", Title: "Client termination",
-		Rules:      []string{"CG0", "K1", "K2", "K3", "K4", "K5", "L7"},
+		Rules:      []string{"CG0", "K1", "K2", "K3", "K4", "K5", "L1", "L7"},
 		Assume:     []string{"user callbacks return", "the HTTP transport honours request contexts"},
 		NotDecided: "nothing further of the structural clauses; timing ('promptly') is not decided.",
 		LevelText:  "Every goroutine is pooled, every blocking operation is cancellable by the pool context, cancel-join-send happens once. Argued sufficient (DESIGN 4, C12) for 'once Wait yields no client goroutine is running, exactly one value is yielded'."},
@@ -73,11 +73,11 @@ var propPlans = []propPlan{
 		NotDecided: "nil dereferences; busy loops in general; allocation sizes inside mediacommon.",
 		LevelText:  "The enumerated panic sources of client code (type assertions, zero divisors, nil function fields), no silent nil decoder, no wedge on absurd fragment counts."},
 	{ID: "C14", Title: "Marshal/Unmarshal round trip",
-		Rules:      []string{"T1", "T2", "T3", "S1", "S2", "S4"},
+		Rules:      []string{"T1", "T2", "T3", "S1", "S2", "S4", "V1b", "V3b"},
 		NotDecided: "value-level equality (float formatting of arbitrary values, key inheritance between segments, time zones, sign handling).",
 		LevelText:  "Every field, under the right tag and attribute name, in both directions; what is written can be tokenised back."},
 	{ID: "C15", Title: "Decoder total, encoder grammatical",
-		Rules:      []string{"V1", "V2", "V3", "V4d", "S1", "S2", "S3", "S5", "F9"},
+		Rules:      []string{"V1", "V1b", "V2", "V3", "V3b", "V4d", "S1", "S2", "S3", "S5", "F9"},
 		NotDecided: "the full RFC 8216 grammar; termination as such; escaping of caller-supplied strings inside quoted attributes.",
 		LevelText:  "Bounds ledger + validated structure + loop progress for the two playlist packages over all byte strings (modulo nil dereferences); grammar-shape conditions on everything Marshal can emit."},
 	{ID: "C16", Title: "Multivariant playlist",
@@ -93,7 +93,7 @@ var propPlans = []propPlan{
 		NotDecided: "byte totals per segment.",
 		LevelText:  "Size check before buffering, window and path-table pairing, files released."},
 	{ID: "C20", Title: "Client download pipeline",
-		Rules:      []string{"CG0", "L4c", "L3c", "K2", "F7", "N3", "L7"},
+		Rules:      []string{"CG0", "L1", "L4c", "L3c", "K2", "F7", "N3", "L7"},
 		NotDecided: "exactly-once as a history property beyond the mutation shapes of the queue.",
 		LevelText:  "Queue state only under its mutex, wake-up channels captured under the lock, signal after change, one throttle between downloads."},
 }
